@@ -73,7 +73,9 @@ class SymAdapter(InternalAsyncioAdapter):
             open_gates = [g for g in self.env.gates if not g.done()]
             n = len(done) + len(open_gates) + (1 if timeout is not None else 0)
             if n == 0:
-                raise vlib.boot.HarnessError("deadlock in harness: nothing can complete")
+                # only the pull (external input) can make progress: wait for the outside world
+                await asyncio.wait([nt.task for nt in named], return_when=asyncio.FIRST_COMPLETED)
+                continue
             k = self.env.choose(n)
             if k < len(done):
                 return WaitForNextTaskResult(done[k], started)
